@@ -76,7 +76,7 @@ Verdict(c) ==
      ELSE IF "contract" \in c.checks THEN
           LET base == BaseRows(c.stmt, c.store) IN
           IF ErrExpectedB(c.stmt, c.store, base) /\ ~c.stmt.lim.has /\ ~IsAggStmt(c.stmt) THEN
-               (IF \A x \in 1..Len(main) : main[x].phase = "failed" THEN "ok" ELSE "documented-failure-not-reported")
+               (IF \A x \in 1..Len(main) : main[x].phase \in {"failed", "rejected"} THEN "ok" ELSE "documented-failure-not-reported")   \* refused when built (a literal zero divisor) or when run
           ELSE IF ~ModelledB(c.stmt, c.store, base) THEN "unmodelled"
           ELSE IF ~Contract(c, base, main) THEN "differs-from-contract" ELSE "ok"
      ELSE "ok"
